@@ -95,7 +95,10 @@ TEXT = {'C11': {'technique': 'Lean 4 proof by mutual structural induction over t
                   '(C04_preservation_refuted: an intermediate term of a run that is perfectly fine has no type) and proved with the side condition that names '
                   'the problem (C04_preservation_fixed), so the statement for programs with groups (C01_checker_sound_run_stmt) stays open; it is decided per '
                   'program: every E-small sentence (<= 5 tokens quick, <= 6 thorough) and every G-prog program accepted by the real front end is evaluated by '
-                  "the real evaluator and a stuck final term other than a division by zero is a violation unless it matches a recorded finding's signature.",
+                  "the real evaluator and a stuck final term other than a division by zero is a violation unless it matches a recorded finding's signature. "
+                  '**From source text: C01_pipeline_nolet — for every text whose front end yields a fully annotated term without definition groups that the '
+                  'checker model accepts, after any number of evaluation steps the term is a value, can step, or is stuck at a division by zero (the scoping '
+                  'hypothesis is discharged by the front end: C14_front_end_scoped).**',
          'note': 'Trusted: Lean kernel, standard axioms, harness/driver. Modelled, not verified: type_checker.rs, unifier.rs, normalizer.rs, evaluator.rs, '
                  'de_bruijn.rs (store layer). Hook H2 (feature verif-hooks) attributes hits to KF-holecopy.'},
  'C05': {'technique': 'Lean 4 proof that the checker model never wrongly rejects a fully annotated program the independent checker accepts (confluence of '
@@ -189,7 +192,11 @@ TEXT = {'C11': {'technique': 'Lean 4 proof by mutual structural induction over t
                   'soups and on truncated/corrupted corpus files, and must respect the exit/stdout/stderr contract. Translator tie: the stage calls, error '
                   'propagations, output macros and exits of main.rs (run / entry / main) are regenerated on every run and C14_cli_streams_tie decides over '
                   'them that `run` writes to standard output only and only after tokenize, parse and type_check succeeded, `entry` writes nothing, and `main` '
-                  'writes to standard error only, each write followed at once by exit(1).',
+                  'writes to standard error only, each write followed at once by exit(1). **End to end from source text (Lemmas/FrontEnd.lean): for EVERY '
+                  'classifier, interner, text and context the front end (tokenize, token conversion, parser, re-association, resolution, definition-order '
+                  'check) returns lexical errors (non-empty), parse errors (non-empty) or a term — never a panic, never out of fuel (C14_front_end_total); the '
+                  'term is well scoped in its context (C14_front_end_scoped); if it is fully annotated the checker model never panics on it '
+                  '(C14_pipeline_no_panic_annotated), and with holes the only reachable panic site is the one of KF-holedepth (C14_pipeline_one_live_site).**',
          'note': 'Trusted: Lean kernel, standard axioms, extractor, harness.'},
  'C17': {'technique': '`decide` over the shape of the 36 packrat functions and fingerprints of the caching macros regenerated from parser.rs; memo-table model '
                       "whose per-nonterminal hit/miss counters are compared with the implementation's (hook H1); wall-clock scaling measured on the real code "
@@ -348,7 +355,12 @@ TEXT = {'C11': {'technique': 'Lean 4 proof by mutual structural induction over t
                   'C19_resolve_rename_erased); so do the definition-order check (C19_rename_check_definitions) and everything after the parse phase '
                   "(C19_rename_finish_parse); hence, names erased, the independent checker's verdict and type and every evaluation result coincide "
                   '(C19_rename_pipeline). A renaming that captures (`y ↦ x` in `x => y => x`) or maps to `_` changes the outcome (kernel-checked witnesses, '
-                  'same on the binary).**',
+                  'same on the binary).** **Redundant parentheses at TOKEN level (Lemmas/ParenTokens.lean, using parser completeness): wrapping a whole '
+                  'program (any sentence) in parentheses yields a sentence again (C19_paren_sentence, C19_segment_shift) and the whole front end returns the '
+                  "same resolved term — names, indices, hole ids, every inner range; only the root's range differs — or rejects both with the same number of "
+                  "diagnostics (C19_paren_program_tokens, _accepted, _plain; the definition-order check never reads the root's range: "
+                  'C19_check_definitions_root). Parentheses around one operand: the re-association step is proved (C19_paren_operand), the token-level '
+                  'statement is checked on instances only.**',
          'note': 'Trusted: Lean kernel, standard axioms, the rewrite implementations in harness/src/prog.rs (each is validated on the unchanged tree).'},
  'C07': {'technique': 'Lean model of the whole packrat parser incl. error recovery and the three re-association passes (zero differences on 1.7M ops); Lean '
                       'proofs: every token consumed, left association of + - and * / chains of any length, parenthesised chains opaque, passes act on disjoint '
